@@ -45,6 +45,20 @@ Section Handler.
         let '(acts, st2) := connection maxsz st1 rest in
         (a :: acts, st2)
     end.
+
+  (* Handler::onInput on a live connection: once a request has been refused while it was read (413, 4xx/5xx from the
+     parser) the connection takes no further input - what follows is the rest of the refused request, not the start of
+     a new one (fix of the third seeding round; before, [connection] above was also the server's behaviour) *)
+  Fixpoint serve (maxsz : nat) (st : pstate) (reads : list bytes) : list action :=
+    match reads with
+    | [] => []
+    | s :: rest =>
+        let '(a, st1) := on_input maxsz st s in
+        match a with
+        | ARespond _ => a :: map (fun _ => AWait) rest
+        | _ => a :: serve maxsz st1 rest
+        end
+    end.
 End Handler.
 
 (* checkIdlePeers: step 0/1 = request line / headers, 2 = body; times in milliseconds *)
